@@ -387,3 +387,7 @@ CHECKS["C06"]["text"] += (" Layer B: Propagate.tla models LogicFormula.propagate
                           "programs built around evidence propagation (several evidence literals of both signs on facts, AD heads and derived "
                           "atoms, every atom queried, exactly-one ADs with negative evidence) is run under every option vector.")
 CHECKS["C06"]["technique"] += "; TLC model checking of a TLA+ model of evidence propagation with spec->code replay"
+CHECKS["C04"]["text"] += (" A fixed corpus of 290 cyclic programs (generated cyclic programs, a family of mutual recursion entered from both "
+                          "sides, the cyclic family) is run under unbuffered, rc_first and five fixed random orders independently of the run's seed: the "
+                          "(program, mode) pairs on which the pinned tree's unbuffered modes already fail are listed one by one "
+                          "(tools/c04_corpus_known.json, known finding KF38), every other failing pair is a violation.")
